@@ -140,12 +140,16 @@ impl<'a> ChainRun<'a> {
         let links = Links {
             pathkey: wkey.clone(),
             exact: if self.lookup_exact { Some(&self.exact_ends) } else { None },
+            faultfree: cfg.fail.is_empty() && cfg.flaky.is_empty(),
         };
         let res = explore_ctx(self.wr, w, cfg, opts, &extra, &links, self.stats);
         for e in res.ends.iter() {
             let k = format!("{}#{}", wkey, e.sig);
             if self.record_exact {
                 self.exact_ends.entry(k).or_default().push(e.line);
+                if cfg.fail.is_empty() && cfg.flaky.is_empty() && !e.aborted {
+                    self.exact_ends.entry(format!("{}#*", wkey)).or_default().push(e.line);
+                }
             }
         }
         Some(res)
